@@ -23,8 +23,8 @@ package state
 // the committed root does not depend on which accounts were looked at.
 //@ macro newlydeleted(s, a) = has(s.stateObjects, a) && s.stateObjects[a] != nil && s.stateObjects[a].deleted && !old(s.stateObjects[a].deleted)
 //@ func StateDB.Commit
-//@   requires s != nil && s.stateObjects != nil
-//@   requires forall a common.Address, b common.Address :: a != b && has(s.stateObjects, a) && has(s.stateObjects, b) && s.stateObjects[a] != nil ==> s.stateObjects[a] != s.stateObjects[b]
+//@   requires[C09] s != nil && s.stateObjects != nil
+//@   requires[C09] forall a common.Address, b common.Address :: a != b && has(s.stateObjects, a) && has(s.stateObjects, b) && s.stateObjects[a] != nil ==> s.stateObjects[a] != s.stateObjects[b]
 //@   ensures[C09] @deleteonly forall a common.Address :: newlydeleted(s, a) ==> old(s.stateObjects[a].suicided) || (old(has(s.stateObjectsDirty, a)) && deleteEmptyObjects)
 //@   loop 1 invariant[C09] forall a common.Address :: newlydeleted(s, a) ==> old(s.stateObjects[a].suicided) || (old(has(s.stateObjectsDirty, a)) && deleteEmptyObjects)
 //@   loop 1 invariant[C09] s.stateObjects == old(s.stateObjects) && (forall a common.Address :: has(s.stateObjects, a) == old(has(s.stateObjects, a)) && s.stateObjects[a] == old(s.stateObjects[a]))
